@@ -103,6 +103,21 @@ def run(prop, tier, seed, t0):
         if cfgname == configs[0]:
             for f in v['funcs'][:6]:
                 cov['samples'].append({'engine': 'verus', 'module': f['module'], 'function': f['function'], 'mode': f['mode'], 'discharged': f['success'], 'smt_us': f['time_us']})
+        # syntactic obligations (termination of the mutually recursive Encode defaults for derived impls)
+        for w in meta.get('wf_obligations', []):
+            if prop != 'C05':
+                break
+            cov['obligations'] += 1
+            cov.setdefault('syntactic_obligations', []).append({'id': w['id'], 'ok': w['ok'], 'overrides': w['overrides']})
+            if w['ok']:
+                cov['discharged'] += 1
+            else:
+                violations.append({'engine': 'syntactic', 'obligation': w['id'], 'anchor': w['impl'],
+                                   'msg': 'derived `impl Encode` overrides none of encode_to/using_encoded/encode: the trait defaults call each other forever',
+                                   'text': 'definition: %s\nexpanded impl header: %s\nmethods overridden: %s' % (w['definition'], w['impl'], w['overrides']),
+                                   'witness': None})
+        if 'family_defs' in (getattr(check, '_last_extra', None) or {}):
+            pass
         # vacuity guard: canaries must fail
         can = [l for l in meta['lemmas'] if l['id'].startswith('canary.')]
         cov['verus'][cfgname]['canaries'] = len(can)
@@ -129,6 +144,25 @@ def run(prop, tier, seed, t0):
 
     if cov['obligations'] == 0 and not violations:
         undecided.append('no obligation was generated for %s (vacuity guard)' % prop)
+
+    # ---- definition-directed witnesses for failed derive obligations, replayed natively ---------------
+    fam_defs = {}
+    for v in vres_all.values():
+        if v is not None:
+            for d in v['meta'].get('family_defs', []) or []:
+                fam_defs[d['name']] = d
+    for it in violations:
+        ob = it.get('obligation') or ''
+        try:
+            import family_replay
+            m1 = re.match(r'fam\.(\w+)\.max_encoded_len$', ob)
+            m2 = re.match(r'wf\.encode_defaults\.(\w+)$', ob)
+            if m1 and m1.group(1) in fam_defs and not it.get('witness'):
+                it['witness'] = family_replay.replay_mel(fam_defs[m1.group(1)])
+            elif m2 and m2.group(1) in fam_defs and not it.get('witness'):
+                it['witness'] = family_replay.replay_wf(fam_defs[m2.group(1)])
+        except Exception as e:  # a failed replay attempt never hides the violation
+            it['witness'] = {'replayed': False, 'note': 'replay attempt failed: %s' % e}
 
     # ---- pair Verus failures with the counterexample of their Kani twin ------------------------------
     kfail = {v.get('paired_obligation'): v for v in violations if v.get('engine') == 'kani' and v.get('paired_obligation')}
@@ -176,7 +210,10 @@ def run(prop, tier, seed, t0):
     cov['trusted_base'] = sorted(set(cov['trusted_base']))
     cov['known_findings_hit'] = [kf['what'] for kf, _ in known_hits]
     if level == 'translation_validation':
-        cov['programs'] = cov.get('programs', 0)
+        fam = [f for f in cov['functions_under_contract'] if f['id'].startswith('fam.')]
+        progs = sorted(set(f['id'].split('.')[1] for f in fam) | set(w['id'].split('.')[-1] for w in cov.get('syntactic_obligations', [])))
+        cov['programs'] = len(progs)
+        cov['program_names'] = progs
         cov['disagreements_checked'] = cov['obligations']
     if level == 'model_checking':
         cov['evaluations'] = max(1, cov['obligations'] + len(cov['bounded_standins']))
